@@ -246,3 +246,19 @@ Proof.
   destruct (count_kind KNodes (f_defs f) =? 0); [destruct (f_defs f); norm_msg; reflexivity|].
   reflexivity.
 Qed.
+
+(* ---- definitiontypeorder: orderOf = order_of; backwards loop carrying minOrder = dto_loop over the reversed list ---- *)
+Lemma orderOf_eq : forall d, h_definitiontypeorder_orderOf d = order_of d.
+Proof. destruct d; reflexivity. Qed.
+
+Lemma TL_definitiontypeorder_run_eq : forall f, LintTranslated.definitiontypeorder_run f = Lint.definitiontypeorder_run f.
+Proof.
+  intros f. unfold LintTranslated.definitiontypeorder_run, Lint.definitiontypeorder_run. cbv zeta.
+  match goal with |- context [lint_for ?b _ _] => set (body := b) end.
+  assert (H : forall l ds mn, fst (lint_for body l (ds, mn)) = ds ++ dto_loop mn l).
+  { induction l as [|d l IH]; intros ds mn; cbn [lint_for dto_loop fst].
+    - now rewrite app_nil_r.
+    - cbn [body]. rewrite orderOf_eq. destruct (mn <? order_of d); norm_msg; rewrite IH; [rewrite <- app_assoc|]; reflexivity. }
+  specialize (H (rev (f_defs f)) [] 18446744073709551615).
+  destruct (lint_for body (rev (f_defs f)) ([], 18446744073709551615)) as [ds mn]. cbn [fst app] in H. subst. reflexivity.
+Qed.
